@@ -102,7 +102,7 @@ func checkC15(c *core.Ctx) {
 		"CLI: `info attr describe` for 21 roots x every built-in attribute x both accidental preferences, `info chord describe` for 21 roots x 46 dictionary keys x 2, and a generated dictionary naming all intervals up to 64 (incl. doubly altered) described from 21 roots; "+
 		"sizes from the textbook formula, applied note = root + interval as pitch, natural-first spelling; non-trivial = existing interval other than a perfect unison whose size and round trip were compared, or a described note with an accidental or an octave offset; distinct by case", maxLen))
 	c.Assume("theory.Size/Exists (formula of the property statement)", "theory.ParseNotation for canonical notation", "yaml.v3 as reader")
-	c.Exhaustive(true)
+	c.Exhaustive(!c.Quick()) // quick samples the describe runs; numbers 0..64 x 7 qualities are complete in both tiers
 
 	// ---------- library level
 	if c.Worker == "" {
@@ -119,8 +119,8 @@ func checkC15(c *core.Ctx) {
 			}
 			for _, ln := range lines {
 				var d struct {
-					N, Q, Semi, PN, PQ, YN, YQ      int
-					OK                              bool
+					N, Q, Semi, PN, PQ, YN, YQ          int
+					OK                                  bool
 					Str, ParseErr, YAMLErr, YAML, Panic string
 				}
 				if json.Unmarshal(ln, &d) != nil {
